@@ -1,6 +1,8 @@
 package main
 
 import (
+	"runtime"
+	"sync"
 	"encoding/json"
 	"flag"
 	"fmt"
@@ -371,15 +373,8 @@ func runHarness(p *Program, spec *Unit, hs *HarnessSpec, tier string, o *runOpts
 	if fn == nil {
 		return nil, fmt.Errorf("harness %s not found in %s", hs.Func, p.pkg.Pkg.Path())
 	}
-	solver, err := NewSolver([]string{"z3", "-in"}, ts.QueryTimeoutS*1000)
-	if err != nil {
-		return nil, err
-	}
-	defer solver.Close()
-	ex := &Explorer{solver: solver, stats: newStats(), maxSteps: ts.MaxSteps, maxPaths: ts.MaxPaths, maxViolPerID: 3}
 	hspec := *spec
 	hspec.params = ts.Params
-	_ = hspec.params
 	if hs.MapOrder != nil {
 		hspec.MapOrder = *hs.MapOrder
 	}
@@ -389,17 +384,63 @@ func runHarness(p *Program, spec *Unit, hs *HarnessSpec, tier string, o *runOpts
 	if hs.EnvFires != nil {
 		hspec.EnvFires = *hs.EnvFires
 	}
-	in := p.newInterp(&hspec, hs, tier, ex)
-	in.trace = o.trace
-	ex.in = in
-	start := time.Now()
-	ex.shard = shard
-	ex.Run(func() { in.callSSA(nil, 0, fn, nil, nil) })
-	res := &HarnessResult{Func: hs.Func, Stats: ex.stats, WallSec: time.Since(start).Seconds(), Params: ts.Params}
-	res.Solver.Queries, res.Solver.Sat, res.Solver.Unsat, res.Solver.Unknown, res.Solver.Sec = solver.Queries, solver.NSat, solver.NUnsat, solver.NUnknown, solver.SolverSec
-	if len(solver.Errors) > 0 {
-		ex.inconclusive("solver error lines: " + strings.Join(solver.lastErrors(), " | "))
+	nw := o.workers
+	if nw <= 0 {
+		nw = runtime.NumCPU()
+		if nw > 16 {
+			nw = 16
+		}
 	}
+	if o.trace {
+		nw = 1
+	}
+	pool := newPool(ts.MaxPaths)
+	pool.push(workItem{prefix: nil, model: Model{}})
+	start := time.Now()
+	total := newStats()
+	res := &HarnessResult{Func: hs.Func, Stats: total, Params: ts.Params}
+	var wg sync.WaitGroup
+	var mu sync.Mutex
+	var firstErr error
+	for w := 0; w < nw; w++ {
+		wg.Add(1)
+		go func(w int) {
+			defer wg.Done()
+			solver, err := NewSolver([]string{"z3", "-in"}, ts.QueryTimeoutS*1000)
+			if err != nil {
+				mu.Lock()
+				firstErr = err
+				mu.Unlock()
+				return
+			}
+			defer solver.Close()
+			ex := &Explorer{solver: solver, stats: newStats(), maxSteps: ts.MaxSteps, maxViolPerID: 3, pool: pool, id: w}
+			in := p.newInterp(&hspec, hs, tier, ex)
+			in.trace = o.trace
+			ex.in = in
+			ex.Run(func() { in.callSSA(nil, 0, fn, nil, nil) })
+			if len(solver.Errors) > 0 {
+				ex.inconclusive("solver error lines: " + strings.Join(solver.lastErrors(), " | "))
+			}
+			mu.Lock()
+			total.merge(ex.stats)
+			res.Solver.Queries += solver.Queries
+			res.Solver.Sat += solver.NSat
+			res.Solver.Unsat += solver.NUnsat
+			res.Solver.Unknown += solver.NUnknown
+			res.Solver.Sec += solver.SolverSec
+			mu.Unlock()
+		}(w)
+	}
+	wg.Wait()
+	if firstErr != nil {
+		return nil, firstErr
+	}
+	if pool.overflow {
+		total.Inconclusive = append(total.Inconclusive, fmt.Sprintf("path budget %d exhausted with prefixes pending", ts.MaxPaths))
+	}
+	res.WallSec = time.Since(start).Seconds()
+	ex := &Explorer{stats: total}
 	if shard == nil {
 		for _, c := range hs.Cover {
 			if !ex.stats.Cover[c] {
